@@ -1,7 +1,6 @@
 from __future__ import annotations
 
 import sys
-from collections import defaultdict
 from collections.abc import Mapping
 from copy import deepcopy
 from types import MappingProxyType
@@ -61,13 +60,15 @@ class StereoCondensedReactionGraph(StereoMolGraph, CondensedReactionGraph):
     """
 
     __slots__ = ("_atom_stereo_change", "_bond_stereo_change")
-    _atom_stereo_change: defaultdict[AtomId, ChangeDict[AtomStereo]]
-    _bond_stereo_change: defaultdict[Bond, ChangeDict[BondStereo]]
+    _atom_stereo_change: dict[AtomId, ChangeDict[AtomStereo]]
+    _bond_stereo_change: dict[Bond, ChangeDict[BondStereo]]
 
     def __init__(self, mol_graph: Optional[MolGraph] = None):
         super().__init__(mol_graph)
-        self._atom_stereo_change = defaultdict(ChangeDict[AtomStereo])
-        self._bond_stereo_change = defaultdict(ChangeDict[BondStereo])
+        # plain dicts: reading the change of a centre without one must not
+        # create an (empty) entry
+        self._atom_stereo_change = {}
+        self._bond_stereo_change = {}
 
         if mol_graph and isinstance(mol_graph, StereoCondensedReactionGraph):
             self._atom_stereo_change.update(
@@ -279,9 +280,7 @@ class StereoCondensedReactionGraph(StereoMolGraph, CondensedReactionGraph):
                      defaults to True
         :return: Returns the relabeled graph or None if copy is False
         """
-        atom_stereo_change: defaultdict[AtomId, ChangeDict[AtomStereo]] = (
-            defaultdict(ChangeDict[AtomStereo])
-        )
+        atom_stereo_change: dict[AtomId, ChangeDict[AtomStereo]] = {}
 
         for atom, stereo_change_dict in self._atom_stereo_change.items():
             for stereo_change, atom_stereo in stereo_change_dict.items():
@@ -294,11 +293,11 @@ class StereoCondensedReactionGraph(StereoMolGraph, CondensedReactionGraph):
                     atom_stereo.parity,
                 )
                 new_atom = mapping.get(atom, atom)
-                atom_stereo_change[new_atom][stereo_change] = new_stereo
+                atom_stereo_change.setdefault(
+                    new_atom, ChangeDict[AtomStereo]()
+                )[stereo_change] = new_stereo
 
-        bond_stereo_change: defaultdict[Bond, ChangeDict[BondStereo]] = (
-            defaultdict(ChangeDict[BondStereo])
-        )
+        bond_stereo_change: dict[Bond, ChangeDict[BondStereo]] = {}
 
         for bond, stereo_change_dict in self._bond_stereo_change.items():
             for stereo_change, bond_stereo in stereo_change_dict.items():
@@ -311,7 +310,9 @@ class StereoCondensedReactionGraph(StereoMolGraph, CondensedReactionGraph):
                     ),
                     bond_stereo.parity,
                 )
-                bond_stereo_change[new_bond][stereo_change] = new_stereo
+                bond_stereo_change.setdefault(
+                    new_bond, ChangeDict[BondStereo]()
+                )[stereo_change] = new_stereo
 
         # a new graph if copy is True, else self
         relabeled_scrg = super().relabel_atoms(mapping, copy=copy)
